@@ -351,3 +351,88 @@ TWINS = [
         (M, "        return first_match\n", "        return elsewhere[0] if elsewhere else None\n"),
     ]},
 ]
+
+# ---- round 3b: lazy itertools iterators over interpreted values (rules, (flag, text) operations, converter pairs) ----
+_IMP_M = "import typing as t\nimport warnings\n"
+_IMP_T = "import re\nimport typing as t\nfrom dataclasses import dataclass\n"
+_IMP_R = "import ast\nimport re\n"
+_GDR_LOOP = (
+    "        for r in self.map._rules_by_endpoint[rule.endpoint]:\n"
+    "            # every rule that comes after this one, including ourself\n"
+    "            # has a lower priority for the defaults.  We order the ones\n"
+    "            # with the highest priority up for building.\n"
+    "            if r is rule:\n"
+    "                break\n"
+)
+
+
+def _gdr(head: str) -> list:
+    """get_default_redirect: the rules of higher priority taken from a lazy iterator instead of for / break"""
+    return [(M, _IMP_M, "import itertools\n" + _IMP_M), (M, _GDR_LOOP, head)]
+
+
+def _partial_filtered(source: str) -> list:
+    """_partial_build: the suitable rules come out of a lazy filter"""
+    return [(M, _IMP_M, "import itertools\n" + _IMP_M), (M, _PARTIAL_LOOP,
+        f"        for rule in {source}:\n"
+        "            if True:\n"
+        "                build_rv = rule.build(values, append_unknown)\n"
+        "\n"
+        "                if build_rv is not None:\n"
+        "                    rv = (build_rv[0], build_rv[1], rule.websocket)\n"
+        "                    if self.map.host_matching:\n"
+        "                        if rv[0] == self.server_name:\n"
+        "                            return rv\n"
+        "                        elif first_match is None:\n"
+        "                            first_match = rv\n"
+        "                    else:\n"
+        "                        return rv\n")]
+
+
+def _parts_starmap(fn: str) -> list:
+    return [(R, _IMP_R, "import ast\nimport itertools\nimport re\n"), (R, _PARTS_COMP, f"            parts: list[ast.expr] = list(itertools.starmap({fn}, ops))\n")]
+
+
+def _match_zip(pairs: str) -> list:
+    return [(T, _IMP_T, "import itertools\n" + _IMP_T), (T, _MATCH_TAIL,
+        f"            for name, value in {pairs}:\n"
+        "                try:\n"
+        "                    value = rule._converters[name].to_python(value)\n")]
+
+
+_RULES = "self.map._rules_by_endpoint.get(endpoint, ())"
+TWINS += [
+    {"name": "shape:default-redirect-takewhile-loop", "edits": _gdr("        for r in itertools.takewhile(lambda other: other is not rule, self.map._rules_by_endpoint[rule.endpoint]):\n")},
+    {"name": "shape:default-redirect-islice-up-to-index", "edits": _gdr("        ranked = self.map._rules_by_endpoint[rule.endpoint]\n        position = next(i for i, other in enumerate(ranked) if other is rule)\n        for r in itertools.islice(ranked, position):\n")},
+    {"name": "shape:default-redirect-reversed-dropwhile", "edits": _gdr("        ranked = self.map._rules_by_endpoint[rule.endpoint]\n        lower_first = itertools.dropwhile(lambda other: other is not rule, reversed(ranked))\n        for r in reversed(list(itertools.islice(lower_first, 1, None))):\n")},
+    {"name": "shape:partial-build-filterfalse", "edits": _partial_filtered(f"itertools.filterfalse(lambda r: not r.suitable_for(values, method), {_RULES})")},
+    {"name": "shape:partial-build-dropwhile-unsuitable-prefix", "edits": [(M, _IMP_M, "import itertools\n" + _IMP_M), (M, "        for rule in self.map._rules_by_endpoint.get(endpoint, ()):\n            if rule.suitable_for(values, method):\n                build_rv", f"        for rule in itertools.dropwhile(lambda r: not r.suitable_for(values, method), {_RULES}):\n            if rule.suitable_for(values, method):\n                build_rv")]},
+    {"name": "shape:partial-build-compress-by-suitability", "edits": _partial_filtered(f"itertools.compress({_RULES}, (r.suitable_for(values, method) for r in {_RULES}))")},
+    {"name": "shape:builder-parts-starmap", "edits": _parts_starmap("lambda is_dynamic, elem: _convert(elem) if is_dynamic else ast.Constant(elem)")},
+    {"name": "shape:builder-ops-chain-from-iterable", "edits": [(R, _IMP_R, "import ast\nimport itertools\nimport re\n"), (R, "            for is_dynamic, elem in dom_ops + url_ops\n", "            for is_dynamic, elem in itertools.chain.from_iterable((dom_ops, url_ops))\n")]},
+    {"name": "shape:matcher-zip-longest-names-values", "edits": _match_zip("itertools.zip_longest(rule._converters.keys(), values)")},
+    {"name": "shape:matcher-pairs-through-groupby-runs", "edits": _match_zip("((name, value) for (name, value), _run in itertools.groupby(zip(rule._converters.keys(), values), key=lambda pair: pair))")},
+]
+MUTANTS += [
+    {"name": "shape:partial-build-takewhile-stops-at-first-unsuitable", "expect": "R4.7", "edits": _partial_filtered(f"itertools.takewhile(lambda r: r.suitable_for(values, method), {_RULES})")},
+    {"name": "shape:partial-build-dropwhile-drops-the-suitable-prefix", "expect": "R4.7", "edits": _partial_filtered(f"itertools.dropwhile(lambda r: r.suitable_for(values, method), {_RULES})")},
+    {"name": "shape:partial-build-filterfalse-polarity-lost", "expect": "R4.7", "edits": _partial_filtered(f"itertools.filterfalse(lambda r: r.suitable_for(values, method), {_RULES})")},
+    {"name": "shape:partial-build-compress-selectors-shifted", "expect": "R4.7", "edits": _partial_filtered(f"itertools.compress({_RULES}, itertools.chain([True], (r.suitable_for(values, method) for r in {_RULES})))")},
+    {"name": "shape:builder-parts-starmap-arguments-crossed", "expect": "R4.3", "edits": _parts_starmap("lambda elem, is_dynamic: _convert(elem) if is_dynamic else ast.Constant(elem)")},
+    {"name": "shape:matcher-zip-longest-names-reversed", "expect": "R4.4", "edits": _match_zip("itertools.zip_longest(reversed(list(rule._converters.keys())), values)")},
+]
+
+
+def _partial_sentinel(pre: str = "") -> list:
+    """_partial_build pulling the rules through iter(callable, sentinel)"""
+    edits = _partial_filtered("iter(lambda: next(pending, None), None)")[1:]
+    old, new = edits[0][1], edits[0][2]
+    return [(M, old, f"        pending = iter({_RULES})\n{pre}" + new.replace("            if True:\n", "            if rule.suitable_for(values, method):\n"))]
+
+
+TWINS += [
+    {"name": "shape:partial-build-iter-callable-sentinel", "edits": _partial_sentinel()},
+]
+MUTANTS += [
+    {"name": "shape:partial-build-iter-callable-sentinel-skips-first", "expect": "R4.7", "edits": _partial_sentinel("        next(pending, None)\n")},
+]
